@@ -108,7 +108,7 @@ func (am AppModule) InitGenesis(
 	}
 
 	if genesisState.NextPlan != nil {
-		am.upgradeKeeper.SaveNextPlan(ctx, *genesisState.NextPlan)
+		am.upgradeKeeper.RestoreNextPlan(ctx, *genesisState.NextPlan)
 	}
 
 	return nil
